@@ -4,6 +4,8 @@ mod interp;
 mod known;
 mod monitors;
 mod monitors2;
+mod monitors3;
+mod refmodel;
 mod analysis;
 mod profiles;
 mod rngx;
